@@ -106,6 +106,13 @@ impl QFiles {
                 }
             }
         }
+        // one multi-block, two-level file per codec: the read-side properties quantify over the
+        // files of every codec the writer can be configured with
+        for (c, lv) in vlib::fam::CODECS_ONE {
+            if c != 0 {
+                big.push(FileSpec::new(FileCfg::layout(Some(1024), Some(2), 1).with_codec(c, lv), EntrySpec::Uniform { n: 14, klen: 3, vlen: 300, wide: false }));
+            }
+        }
         // maximal index depths
         for l in [254u8, 255] {
             big.push(FileSpec::new(FileCfg::layout(Some(1024), Some(2), l), EntrySpec::Uniform { n: 5, klen: 600, vlen: 1, wide: false }));
